@@ -90,10 +90,12 @@ CHECKS = {
         "sync.Mutex/channel semantics; fairness assumed for 'eventually seen'.",
    technique="Lean 4 proofs (channel protocol; generic lock-order and guard theorems) + regenerated static facts decided in the kernel + forced schedules and -race stress",
    ref="DESIGN.md section 5 C13, Appendix C"),
- "C12": dict(engine="codecs+down (+sig, api when integrated)",
+ "C12": dict(engine="codecs+down+fuzzmisc+api (+sig when integrated)",
    text="Media part proved in Lean 4: the transcriptions of PacketFlags, RewritePacket, Keyframe (VP8, VP9, AV1 OBU walk, H.264 single/STAP/MTAP/FU), "
         "KeyframeDimensions and of pion's RTP/VP8/VP9 parsers never evaluate an out-of-range index and never change a packet's length, for every byte list and codec "
-        "string; the real functions are run under recover() on type-directed and malformed packets on every check and any panic is reported with the input",
+        "string; HTTP part: C12_api_no_crash for the model of the admin API (every request gets a response; the pre-fix nil dereference is kept as a proved "
+        "counterexample about the pre-fix definition); the real functions/handlers are run under recover() on type-directed and malformed inputs on every check and "
+        "any panic is reported with the input",
    note=TB + "Signalling and HTTP parts are covered by the sig/api engines where integrated; JSON decoding, websocket framing, pion's SDP/RTCP parsers are exercised only "
         "by the harness (exploration, not proof).",
    technique="Lean 4 totality proofs (no panic, length preserved) + differential/fuzz run under recover()",
@@ -110,13 +112,32 @@ CHECKS = {
         "only instance in production.",
    technique="Lean 4 invariant/refinement proofs + differential check + strace-regenerated syscall facts + crash injection",
    ref="DESIGN.md section 5 C16"),
- "C18": dict(engine="paths (+api when integrated)",
-   text="String/decision part proved in Lean 4: full specification of scanETag, etagMatch ⇔ the RFC 7232 reading (h ≠ \"\" and (h = e, or an element of the "
-        "well-formed prefix of the comma list is * with e ≠ \"\" or is byte-equal to e)), and the 412/304/continue table of checkPreconditions, for all strings; the "
-        "model runs against the real functions exhaustively over a 7-symbol alphabet plus random headers on every check.  The two-phase exclusivity of conditional "
-        "writers and the atomic replacement of group files are added by the api engine (see C16 for the generic safeReplace_atomic theorem)",
-   note=TB + "Until the api engine is integrated the interleaving/atomic-file half of C18 is not claimed by this check.",
-   technique="Lean 4 proof (etag grammar and precondition table) + exhaustive small-alphabet differential check",
+ "C17": dict(engine="api",
+   text="Lean 4 proofs over a branch-for-branch model of webserver/api.go + group/description.go for every state, path string, method, credential and body: non-preflight "
+        "requests are answered 401 (or the plain 404 of a non-existent path) with no effect unless the credentials are a server admin, an admin of the governing group "
+        "definition, an in-scope admin token/JWT, or (password branches only) the user's own password (C17_authz/C17_refused via isAdmin_sound + route_shape); state "
+        "changes only with 201/204; no response body carries a user entry, password, hash or key (C17_no_secrets); Update*/Set*/Delete* leave everything they do not "
+        "address alone (C17_preserve_*); regenerated source fact: every call into group./token./stats. in api.go is dominated by checkAdmin (C17_auth_dominates). Tied "
+        "to the code on every run by the complete table endpoint shape × method × credential class and random update sequences against the real handler, with an "
+        "independent oracle on status, file hashes and a scan of every response for every secret the harness ever stored",
+   note=TB + "Model abstractions listed in Model/Api.lean (symbolic passwords with the hash-roundtrip assumption, description = length + auto-subgroups + users/wildcard/keys, "
+        "no live groups, legacy op/presenter/other fields not generated); httptest recorder; the harness's own reader of the on-disk JSON. Remarks (not findings): a user "
+        "whose stored password is empty or of type wildcard can have it changed without credentials; DELETE of a group definition is not subject to writableGroups.",
+   technique="Lean 4 proof (router/authorisation/sanitisation/update model) + regenerated source facts + differential check with independent oracle",
+   ref="DESIGN.md section 5 C17"),
+ "C18": dict(engine="paths+api",
+   text="Lean 4 proofs: full specification of scanETag, etagMatch ⇔ the RFC 7232 reading and the 412/304/continue table for all strings (engine paths, exhaustive small "
+        "alphabet); a conditional second phase (UpdateDescription/DeleteDescription/UpdateUser/DeleteUser) succeeds only if its tag is the current tag of the object it "
+        "replaces, creation only if absent (C18_cas); under every interleaving of any number of two-phase writers with arbitrary first phases and an arbitrary scheduler at "
+        "most one writer per (file, tag) wins (C18_exclusive_interleavings); 304 iff current at the HTTP level; regenerated source fact that api.go hands the phase-1 tag "
+        "through checkPreconditions into phase 2; generic theorem safeReplace_atomic applied to the strace-captured system calls of rewriteDescriptionFile (shape by "
+        "decide). Tied to the code by executing every interleaving of 2 (quick) / 3 (thorough) writers' phases on the real group package, HTTP-level conditional requests, "
+        "a goroutine race through the real handler, and SIGKILL at every system call of a rewrite followed by a re-read",
+   note=TB + "groups.mu's presence is exercised by the race op, not proved; strace; process-kill crash model (the temp file is fsynced, the directory is not: no power-loss "
+        "model). Successive versions differ in size or mtime (the harness stamps every written file). Scope remark: .password and .keys are write-only resources without "
+        "tags; a stale If-Match on them is ignored.",
+   technique="Lean 4 proof (etag grammar; CAS invariant over histories and a scheduler machine; generic SafeReplace theorem) + strace/AST-regenerated facts + differential, "
+             "interleaving, crash-injection and race runs",
    ref="DESIGN.md section 5 C18"),
  "C19": dict(engine="paths",
    text="Lean 4 proofs over models of path.Clean (complete characterisation: the byte loop equals component-level lexical resolution, for every string), "
